@@ -41,11 +41,14 @@ CONSTANTS Mode,      \* "honest" (C01) | "hostile" (C05)
           Threads,   \* hostile: reader goroutines that may make a ReadPacket call (the read loop migrates between
                      \* OS threads / Ps between two calls; per-P state such as sync.Pool caches differs per thread)
           MaxStall,  \* empty reads the transport may inject per behaviour
-          Chunking,  \* "all": every n in 1..min(want, avail) | "max": always min(want, avail)
+          Chunking,  \* "all": every n in 1..min(want, avail) | "max": always min(want, avail) |
+                     \* "msg": a MESSAGE transport (wsServerConn / wsClientConn): the peer cuts the stream into messages
+                     \* of its own choosing; a Read gets min(want, rest of the current message) and the wrapper keeps
+                     \* the rest (aux.mleft) for the following Reads - any number of times per connection
           Dev,       \* see above
           Emit       \* TRUE: keep history and print behaviours ("BEH ...")
 
-ASSUME Mode \in {"honest", "hostile"} /\ Chunking \in {"all", "max"}
+ASSUME Mode \in {"honest", "hostile"} /\ Chunking \in {"all", "max", "msg"}
 ASSUME Dev \subseteq {"shortHeader", "emptyNoLen", "unboundedInflate"}
 
 VARIABLES sent,     \* frames handed to the writer, in order (ghost: what was written)
@@ -59,7 +62,8 @@ VARIABLES sent,     \* frames handed to the writer, in order (ghost: what was wr
           devs,     \* deviations taken so far (ghost)
           outs,     \* outcomes so far: "Packet" | "Error" | "Reply" | "Eof"
           aux,      \* [thr |-> reader thread of the current ReadPacket call,
-                    \*  retain |-> requests the dispatcher has registered and not yet released]
+                    \*  retain |-> requests the dispatcher has registered and not yet released,
+                    \*  mleft |-> (Chunking = "msg") bytes of the current message not yet handed to the reader]
           hist      \* history of transport decisions (only when Emit)
 vars == <<sent, wire, open, pos, rd, decoded, alloc, stalls, devs, outs, aux, hist>>
 
@@ -144,13 +148,22 @@ Idle == [ph |-> "Type", id |-> 0, got |-> 0, need |-> 0, bad |-> FALSE, start |-
 
 Init == /\ sent = <<>> /\ wire = <<>> /\ open = TRUE /\ pos = 0 /\ rd = Idle
         /\ decoded = <<>> /\ alloc = 0 /\ stalls = 0 /\ devs = {} /\ outs = <<>> /\ hist = <<>>
-        /\ aux = [thr |-> 0, retain |-> 0]
+        /\ aux = [thr |-> 0, retain |-> 0, mleft |-> 0]
 
 H(x) == IF Emit THEN Append(hist, x) ELSE hist
 Out(x) == IF Emit THEN PrintT("BEH " \o ToJson(x)) ELSE TRUE
 
 Avail == Len(wire) - pos
-Ns(want) == IF Chunking = "max" THEN {Min(want, Avail)} ELSE 1..Min(want, Avail)
+Ns(want) == CASE Chunking = "max" -> {Min(want, Avail)}
+              [] Chunking = "msg" -> IF aux.mleft > 0 THEN {Min(want, aux.mleft)} ELSE {}   \* NextMsg first
+              [] OTHER -> 1..Min(want, Avail)
+\* aux after n bytes were handed over
+AX(n) == IF Chunking = "msg" THEN [aux EXCEPT !.mleft = @ - n] ELSE aux
+\* the message transport takes the peer's next message (m bytes) when the previous one is used up
+NextMsg(m) ==
+  /\ Chunking = "msg" /\ ~open /\ rd.ph \in {"Type", "Len", "Body"} /\ aux.mleft = 0 /\ m \in 1..Avail
+  /\ aux' = [aux EXCEPT !.mleft = m] /\ hist' = H([f |-> "M", n |-> m])
+  /\ UNCHANGED <<sent, wire, open, pos, rd, decoded, alloc, stalls, devs, outs>>
 \* the next n wire bytes are exactly bytes j0+1..j0+n of field f of frame id
 Expected(n, f, id, j0) == \A i \in 1..n : LET b == wire[pos + i] IN b.f = f /\ b.id = id /\ b.j = j0 + i
 
@@ -196,11 +209,11 @@ Deliver(id, p, a, h) ==
 
 \* readPacketType: one Read of a 1-byte buffer
 ReadType ==
-  /\ ~open /\ rd.ph = "Type" /\ Avail > 0
+  /\ ~open /\ rd.ph = "Type" /\ Avail > 0 /\ (Chunking = "msg" => aux.mleft > 0)
   /\ \E t \in (IF Mode = "hostile" THEN Threads ELSE {0}) :      \* the call is made by reader thread t
      LET b  == wire[pos + 1]
          h  == IF Mode = "hostile" THEN H([thr |-> t]) ELSE H([f |-> "T", n |-> 1])
-         ax == [aux EXCEPT !.thr = t] IN
+         ax == [AX(1) EXCEPT !.thr = t] IN
      IF b.f # "T"
      THEN Fail(pos + 1, devs, h)                       \* misaligned: a body/length byte read as a type
      ELSE IF sent[b.id].k = "HB"
@@ -218,23 +231,23 @@ ReadEof ==
   /\ ((Mode = "hostile" /\ MaxFrames > 1) => Out([frames |-> sent, calls |-> hist]))
 
 \* after the length field is complete: readPacketBody's limit check and pool allocation
-AfterLen(p, bad, h) ==
+AfterLen(p, bad, h, ax) ==
   LET fr == sent[rd.id] IN
   IF bad THEN Fail(p, devs, h)                                  \* garbage length (over-approximated: error)
   ELSE IF fr.sc \in {"OVER", "U32"} THEN Fail(p, devs, h) /\ EmitRead("Error")   \* rejected before any allocation
   ELSE IF fr.nb = 0
-  THEN Upd([rd EXCEPT !.ph = "Post", !.got = 0, !.need = 0], p, decoded, alloc, devs, outs, h)
-  ELSE Upd([rd EXCEPT !.ph = "Body", !.got = 0, !.need = fr.nb], p, decoded, alloc + U(fr.sc), devs, outs, h)
+  THEN UpdA([rd EXCEPT !.ph = "Post", !.got = 0, !.need = 0], p, decoded, alloc, devs, outs, h, ax)
+  ELSE UpdA([rd EXCEPT !.ph = "Body", !.got = 0, !.need = fr.nb], p, decoded, alloc + U(fr.sc), devs, outs, h, ax)
 
 \* readPacketBodySize
 ReadLen(n) ==
   /\ ~open /\ rd.ph = "Len" /\ Avail > 0 /\ n \in Ns(4 - rd.got)
   /\ LET bad == rd.bad \/ ~Expected(n, "L", rd.id, rd.got)
          h   == H([f |-> "L", n |-> n]) IN
-     IF rd.got + n = 4 THEN AfterLen(pos + n, bad, h)
+     IF rd.got + n = 4 THEN AfterLen(pos + n, bad, h, AX(n))
      ELSE IF "shortHeader" \in Dev
      THEN Fail(pos + n, devs \cup {"shortHeader"}, h) /\ EmitRead("Error")   \* single Read: short => ErrUnexpectedEOF
-     ELSE Upd([rd EXCEPT !.got = rd.got + n, !.bad = bad], pos + n, decoded, alloc, devs, outs, h)
+     ELSE UpdA([rd EXCEPT !.got = rd.got + n, !.bad = bad], pos + n, decoded, alloc, devs, outs, h, AX(n))
 
 \* readPacketBody: loops until the declared length is there
 ReadBody(n) ==
@@ -242,9 +255,9 @@ ReadBody(n) ==
   /\ LET bad == rd.bad \/ ~Expected(n, "B", rd.id, rd.got)
          h   == H([f |-> "B", n |-> n]) IN
      IF rd.got + n = rd.need
-     THEN Upd([rd EXCEPT !.ph = "Post", !.got = rd.need, !.bad = bad], pos + n, decoded,
-              alloc + U(sent[rd.id].sc), devs, outs, h)                     \* copy out of the pool buffer
-     ELSE Upd([rd EXCEPT !.got = rd.got + n, !.bad = bad], pos + n, decoded, alloc, devs, outs, h)
+     THEN UpdA([rd EXCEPT !.ph = "Post", !.got = rd.need, !.bad = bad], pos + n, decoded,
+               alloc + U(sent[rd.id].sc), devs, outs, h, AX(n))                     \* copy out of the pool buffer
+     ELSE UpdA([rd EXCEPT !.got = rd.got + n, !.bad = bad], pos + n, decoded, alloc, devs, outs, h, AX(n))
 
 \* the stream ends inside a packet
 ReadTrunc ==
@@ -309,7 +322,7 @@ Dispatch ==
 Next == \/ (Mode = "honest" /\ open /\ \E p \in HonestPkts : Write(p))
         \/ (Mode = "hostile" /\ open /\ \E fr \in (IF MaxFrames = 1 THEN HostileFrames ELSE StreamFrames) : HostileWrite(fr))
         \/ CloseStream \/ (MaxFrames > 1 /\ HostileClose)
-        \/ ReadType \/ ReadEof
+        \/ ReadType \/ ReadEof \/ (Chunking = "msg" /\ \E m \in 1..Avail : NextMsg(m))
         \/ \E n \in 1..4 : ReadLen(n)
         \/ \E n \in 1..(MaxLen + 2) : ReadBody(n)
         \/ ReadTrunc \/ Stall \/ Post \/ DispatchBegin \/ Dispatch
@@ -320,6 +333,9 @@ Spec == Init /\ [][Next]_vars /\ WF_vars(Next)
 Terminal == rd.ph \in {"Eof", "Err"}
 \* C05, dispatcher side: nothing stays registered once a packet has been handled - whatever the answer was -
 \* so that no number of refused packets can make the server retain memory
+\* a message transport hands every byte of every message to the reader, once and in order: nothing is left in
+\* the wrapper at the end of the stream, and what it still holds is exactly the part of the stream not yet read
+MsgDrained == (Chunking = "msg" /\ rd.ph = "Eof") => aux.mleft = 0
 RetainBound == aux.retain <= 1 /\ (rd.ph \notin {"Handling"} => aux.retain = 0)
 OK(P) == P \/ devs # {}            \* one flagged deviation must not mask the other routes: checked per cfg
 
